@@ -225,6 +225,10 @@ def generated_mazes(ctx, n):
                 for e in cells:
                     try:
                         p = mz.find_shortest_path(s, e); got = len(p) - 1
+                        pp = [tuple(int(v) for v in x) for x in p]
+                        if pp[0] != s or pp[-1] != e or any(abs(a[0] - b[0]) + abs(a[1] - b[1]) != 1 or not (cl[0, min(a[0], b[0]), a[1]] if a[1] == b[1] else cl[1, a[0], min(a[1], b[1])])
+                                                           for a, b in zip(pp, pp[1:])):
+                            got = f"the path {pp}, which does not run from {s} to {e} along connections"
                     except ValueError:
                         got = None
                     except Exception as ex:
